@@ -13,6 +13,7 @@ import Proofs.TreeSep
 import Proofs.TreeHist
 import Proofs.TreeGetVar
 import Proofs.TreeChildren
+import Proofs.LibSrc
 namespace Pydap.C12
 open Pydap.Quote Pydap.Tree
 
@@ -276,5 +277,71 @@ theorem C12_get_var_children (root c : Obj) (cs : List Obj) (hr : invObj root = 
 
 example : (do let ds ← exTree; getVar ds exLeaf.hdr.id).toOption = some exLeaf
     ∧ exLeaf.hdr.id = [[115], [46], [97], [37], [50], [48], [98]] := by decide
+
+/-! ## the tie by translation: the *source text* of `_quote` / `unquote` computes the model's functions
+
+`Pydap.Gen.src_quote_split`, `src_quote`, `src_unquote_replaces` (PydapModel/Generated/LibSrc.lean) are the MiniPy
+syntax trees of lib.py `_quote` (before the urllib call / the whole body) and of `unquote` (before `unquote_`),
+regenerated from the source on every run by `harness/py2lean.py`.  A Python `str` is a list of code points there;
+`strOf` is its UTF-8 reading as the model's `Str`, `cps` the way back.  `quote_(name.encode("utf-8"), safe=safe)`
+is an input (`@quoted`): urllib's per-byte quoting is the model's `quoteByte`, tied by the correspondence run only. -/
+
+open MiniPy in
+/-- **`_quote` up to the urllib call**: for every string, the interpreted source leaves in `name` what the model
+    passes to `urlQuote` (everything after the eighth character when the first four are `dap4`, else the whole
+    name), in `prefix` the part the model keeps, and in `safe` the extracted table `Gen.QUOTE_SAFE` -/
+theorem C12_source_quote_split (s : List Nat) :
+    runItem [("name", .str s)] Gen.src_quote_split "name" = .ok (.str (if (strOf s).take 4 == dap4 then s.drop 8 else s)) ∧
+    runItem [("name", .str s)] Gen.src_quote_split "prefix" = .ok (.str (if (strOf s).take 4 == dap4 then s.take 8 else [])) ∧
+    runItem [("name", .str s)] Gen.src_quote_split "safe" = .ok (.str (Pydap.Gen.QUOTE_SAFE.toList.map Char.toNat)) :=
+  src_quote_split_eq s
+
+open MiniPy in
+/-- **`_quote` is the model's `quote`**: for every string of code points `s` (each below 0x110000), when
+    `@quoted` is urllib's quoting (`quoteByte` on every UTF-8 byte) of the rest split off above, the interpreted
+    source returns exactly the code points of `quote (strOf s)`: same `dap4` test, same cut at 8, same three
+    replaces in the same order, prefix put back in front -/
+theorem C12_source_quote (s : List Nat) (hs : ∀ c ∈ s, c < 1114112) :
+    runItem [("name", .str s), ("@quoted", .str (((quoteRest (strOf s)).flatten.flatMap quoteByte).map UInt8.toNat))]
+      Gen.src_quote "@ret" = .ok (.str (cps (quote (strOf s)))) ∧
+    quoteRest (strOf s) = strOf (if (strOf s).take 4 == dap4 then s.drop 8 else s) := by
+  refine ⟨src_quote_model s hs, ?_⟩
+  unfold quoteRest
+  split <;> simp [strOf_drop]
+
+open MiniPy in
+/-- the same for *any* answer `q` of urllib: the three replaces and the prefix do not depend on what urllib did -/
+theorem C12_source_quote_any (s : List Nat) (q : Bytes) :
+    runItem [("name", .str s), ("@quoted", .str (q.map UInt8.toNat))] Gen.src_quote "@ret"
+      = .ok (.str ((if (strOf s).take 4 == dap4 then s.take 8 else []) ++ (quoteTail q).map UInt8.toNat)) :=
+  src_quote_eq s q
+
+open MiniPy in
+/-- **`unquote` before `unquote_`**: for every string the three `.replace` passes of the source are the model's three
+    `rep3` passes (same patterns, same order, leftmost non-overlapping); on a string of one-byte characters — every
+    output of `_quote` without a non-ASCII `dap4` prefix — the result is exactly what the model's `unquote` hands to
+    `unq` (urllib's `unquote`, tied by the correspondence run) -/
+theorem C12_source_unquote (s : List Nat) (bs : Bytes) :
+    runItem [("name", .str s)] Gen.src_unquote_replaces "name"
+      = .ok (.str (rep3 37 53 68 93 (rep3 37 53 66 91 (rep3 37 50 69 46 s)))) ∧
+    ∃ r : Bytes,
+      runItem [("name", .str (bs.map UInt8.toNat))] Gen.src_unquote_replaces "name" = .ok (.str (r.map UInt8.toNat)) ∧
+      unquote (chars bs) = unq r :=
+  ⟨src_unquote_replaces_eq s, src_unquote_model bs⟩
+
+-- non-vacuity: "dap4.ce=/a.b[" keeps its first eight characters, the rest is quoted and `.`/`[` replaced;
+-- "a%2Eb%5B%5D" loses its three escapes
+open MiniPy in
+example : runItem [("name", .str [100, 97, 112, 52, 46, 99, 101, 61, 47, 97, 46, 98, 91]),
+      ("@quoted", .str [47, 97, 46, 98, 37, 53, 66])] Gen.src_quote "@ret"
+    = .ok (.str [100, 97, 112, 52, 46, 99, 101, 61, 47, 97, 37, 50, 69, 98, 37, 53, 66]) := by rfl
+open MiniPy in
+example : cps (quote (strOf [100, 97, 112, 52, 46, 99, 101, 61, 47, 97, 46, 98, 91]))
+    = [100, 97, 112, 52, 46, 99, 101, 61, 47, 97, 37, 50, 69, 98, 37, 53, 66] := by decide
+open MiniPy in
+example : runItem [("name", .str [233, 46])] Gen.src_quote_split "name" = .ok (.str [233, 46]) := by rfl
+open MiniPy in
+example : runItem [("name", .str [97, 37, 50, 69, 98, 37, 53, 66, 37, 53, 68])] Gen.src_unquote_replaces "name"
+    = .ok (.str [97, 46, 98, 91, 93]) := by rfl
 
 end Pydap.C12
